@@ -42,6 +42,7 @@ def worker(prop, tier, seed, shard, nshards, out, only=None):
         spec = specs[idx]
         ctx.case = (idx, spec)
         rng = np.random.default_rng([seed, pnum, idx])
+        ctx.freeze_case = (idx * 2654435761 + seed * 40503 + pnum) % 4 == 1  # one case in four hands the library read-only arrays
         try:
             with watchdog(limit):
                 mod.run(ctx, spec, rng)
